@@ -15,6 +15,7 @@ and reports an operation whose operands are dimensionally incompatible:
           added to that run's origin (chunk offset, base decode time, base data offset), divided by its samples_per_chunk,
           multiplied by its per-sample delta, or used to index a per-fragment array
   width   a sum or product of byte or tick quantities is formed in a type narrower than 64 bits
+  sign    a quantity ISO declares signed (trun data offset, composition offset) is cast from a signed to an unsigned type
 
 Unknown constructs evaluate to "unknown" and unknown never conflicts with anything: a construct the evaluator does not
 understand silences the rule for the values that flow through it, it never raises an alarm.  Literals are polymorphic
@@ -29,9 +30,10 @@ LIT = "LIT"
 class D:
     """concrete dimension. kind: 'P' point, 'V' vector, 'PL' point-minus-literal (previous point or file-relative index).
     u: unit as sorted tuple of (base, exponent). scope: 'file' | 'local' | None."""
-    __slots__ = ("kind", "u", "scope")
+    __slots__ = ("kind", "u", "scope", "signed")
 
-    def __init__(self, kind, u, scope=None):
+    def __init__(self, kind, u, scope=None, signed=False):
+        self.signed = signed      # the quantity may be negative (ISO declares the field signed)
         self.kind = kind
         self.u = tuple(sorted((b, e) for b, e in (u.items() if isinstance(u, dict) else u) if e))
         self.scope = scope
@@ -159,10 +161,10 @@ def _fields():
     F[("SttsEntry", "sample_delta")] = V("local", Tm=1, S=-1)
     F[("CttsBox", "entries")] = Coll("CttsEntry", "E:ctts", None, "ctts.entries")
     F[("CttsEntry", "sample_count")] = V(None, S=1)
-    F[("CttsEntry", "sample_offset")] = V(None, Tm=1)
+    F[("CttsEntry", "sample_offset")] = D("V", {"Tm": 1}, None, signed=True)
     F[("StssBox", "entries")] = Coll(P("S"), "E:stss", None, "stss.entries")
     F[("TrunBox", "sample_count")] = V(None, S=1)
-    F[("TrunBox", "data_offset")] = V(None, B=1)
+    F[("TrunBox", "data_offset")] = D("V", {"B": 1}, None, signed=True)
     F[("TrunBox", "sample_sizes")] = Coll(V(None, B=1), "S", "local", "trun.sample_sizes")
     F[("TrunBox", "sample_durations")] = Coll(V(None, Tm=1), "S", "local", "trun.sample_durations")
     F[("TrunBox", "sample_cts")] = Coll(V(None, Tm=1), "S", "local", "trun.sample_cts")
@@ -183,7 +185,7 @@ def _fields():
     F[("MehdBox", "fragment_duration")] = V(None, Tv=1)
     F[("Mp4Sample", "start_time")] = P("Tm")
     F[("Mp4Sample", "duration")] = V(None, Tm=1)
-    F[("Mp4Sample", "rendering_offset")] = V(None, Tm=1)
+    F[("Mp4Sample", "rendering_offset")] = D("V", {"Tm": 1}, None, signed=True)
     F[("TrackConfig", "timescale")] = V(None, Tm=1, sec=-1)
     F[("Mp4Config", "timescale")] = V(None, Tv=1, sec=-1)
     F[("Mp4TrackWriter", "sample_id")] = P("S")
@@ -198,16 +200,32 @@ def _fields():
 
 FIELDS = _fields()
 
-# entry points: parameter dimensions by position (0 = self) and the dimension of the returned value
+# entry points: the dimension of "the sample-number parameter" / "the movie-timescale parameter" and of the returned value.
+# The parameter is found by name, else as the only u32 parameter (a refactoring may add or reorder parameters); if neither
+# identifies it, it stays unknown.
 ENTRY = {
-    "Mp4Track::read_sample": ({2: P("S")}, None),
-    "Mp4Track::sample_offset": ({1: P("S")}, P("B")),
-    "Mp4Track::sample_count": ({}, V(None, S=1)),
-    "Mp4TrackWriter::write_sample": ({3: V(None, Tv=1, sec=-1)}, V(None, Tv=1)),
-    "Mp4TrackWriter::write_end": ({}, None),
-    "Mp4Writer<W>::write_sample": ({}, None),
-    "Mp4Writer<W>::write_end": ({}, None),
+    "Mp4Track::read_sample": (("sample_id", P("S")), None),
+    "Mp4Track::sample_offset": (("sample_id", P("S")), P("B")),
+    "Mp4Track::sample_count": (None, V(None, S=1)),
+    "Mp4TrackWriter::write_sample": (("movie_timescale", V(None, Tv=1, sec=-1)), V(None, Tv=1)),
 }
+
+
+def entry_params(fn, name):
+    """{parameter position: dimension} for an entry function"""
+    decl = ENTRY.get(name)
+    if not decl or not decl[0]:
+        return {}
+    pname, dim = decl[0]
+    ps = fn["hir"].get("params", [])
+    by_name = [i for i, p in enumerate(ps) if p.get("k") == "bind" and p.get("name") == pname]
+    if len(by_name) == 1:
+        return {by_name[0]: dim}
+    u32s = [i for i, p in enumerate(ps) if p.get("k") == "bind" and p.get("ty") == "u32"]
+    if len(u32s) == 1:
+        return {u32s[0]: dim}
+    return {}
+
 
 MUXER_ENTRIES = [("Mp4TrackWriter", "new"), ("Mp4TrackWriter", "write_sample"), ("Mp4TrackWriter", "write_end"), ("Mp4Writer", "write_start"),
                  ("Mp4Writer", "add_track"), ("Mp4Writer", "write_sample"), ("Mp4Writer", "write_end")]
@@ -304,7 +322,7 @@ class Units:
             scope = a.scope if a.scope == b.scope else None      # different scopes on different paths: undecided
             if n is not None:
                 self.ok(what, n)
-            return D(kind, u, scope)
+            return D(kind, u, scope, signed=a.signed or b.signed)
         if isinstance(a, Tup) and isinstance(b, Tup) and len(a.es) == len(b.es):
             return Tup([self.merge(x, y, n, what) for x, y in zip(a.es, b.es)])
         return a
@@ -561,7 +579,12 @@ class Units:
         return None
 
     def ev_cast(self, n, env):
-        return self.ev(n["e"], env)
+        v = self.ev(n["e"], env)
+        src, dst = n["e"].get("ty") or "", n.get("ty") or ""
+        if isinstance(v, D) and v.signed and src in ("i8", "i16", "i32", "i64", "isize") and dst in ("u8", "u16", "u32", "u64", "usize", "u128"):
+            self.err("sign", "%s as %s" % (show(v), dst), "a signed %s (ISO allows it to be negative) is reinterpreted as %s: a negative value becomes a huge positive one" % (show(v), dst), n)
+            return None
+        return v
 
     def ev_addrof(self, n, env):
         return self.ev(n["e"], env)
@@ -887,7 +910,7 @@ class Units:
         name = self.fn_name(fn)
         decl = ENTRY.get(name)
         if decl:
-            for i, want in decl[0].items():
+            for i, want in entry_params(fn, name).items():
                 if i < len(vals):
                     self.check_against(vals[i], want, "argument %d of %s" % (i, name), n)
                     if vals[i] is None or vals[i] is LIT:
@@ -937,9 +960,9 @@ class Units:
 
     def entry(self, fn, widths=True):
         name = self.fn_name(fn)
-        decl = ENTRY.get(name, ({}, None))
+        pd = entry_params(fn, name)
         nparams = len(fn["hir"].get("params", []))
-        vals = [decl[0].get(i) for i in range(nparams)]
+        vals = [pd.get(i) for i in range(nparams)]
         self.widths = widths
         self.region = None
         return self.run_fn(fn, vals)
@@ -970,7 +993,7 @@ def run_rule(fx, chk, rule, entries, regions=(None,), exclude=(), widths=True, f
             continue
         fn = by_name.get(e["fn"])
         bad_keys.add((e["fn"], e["region"]))
-        chk.bad(rule, "%s|%s|%s" % (e["fn"], e["kind"], e["sig"]), "%s: %s" % ({"unit": "incompatible quantities", "point": "absolute quantity misused", "scope": "file-relative quantity used run-locally", "width": "narrow arithmetic"}[e["kind"]], e["detail"]),
+        chk.bad(rule, "%s|%s|%s" % (e["fn"], e["kind"], e["sig"]), "%s: %s" % ({"unit": "incompatible quantities", "point": "absolute quantity misused", "scope": "file-relative quantity used run-locally", "width": "narrow arithmetic", "sign": "signed quantity reinterpreted"}[e["kind"]], e["detail"]),
                 site_of(fn, e["line"]) if fn else "")
     for (fnm, region), cnt in sorted(U.checked.items(), key=str):
         if region not in regions or (fnm, region) in exclude or (only and not only(fnm)):
